@@ -91,6 +91,13 @@ def one_case(case, acc):
 def run_shard(spec, acc):
     rnd = random.Random(spec["seed"])
     for i in range(spec["n"]):
+        if i % 25 == 0:
+            # one LayeredArchitecture / LayerRule object applied to two architectures with different module sets (a regex
+            # layer matches a module only one of them has): every application is judged by R-LAYER on its own graph
+            from . import c15
+
+            c15.layer_rule_two_architectures(rnd, acc)
+            acc.count("layer_rule_objects_applied_to_two_architectures")
         mods = ["r"] + TOP + rnd.sample(SUBS, rnd.randint(2, len(SUBS)))
         mods = [m for m in mods if m == "r" or m in TOP or m.rsplit(".", 1)[0] in mods or m.rsplit(".", 1)[0] in SUBS]
         mods = sorted(set(mods) | {m.rsplit(".", 1)[0] for m in mods if m.count(".") > 1})
@@ -175,6 +182,10 @@ def run_shard(spec, acc):
 
 
 def replay(case, acc):
+    if case.get("kind") == "layer-two-architectures":
+        from . import c15
+
+        return c15.two_architectures_case(case, acc)
     one_case(case, acc)
 
 
@@ -194,6 +205,8 @@ def floors(acc, tier):
     for c in ("forced_intra_layer_only", "forced_unmentioned_regex_layer", "forced_mixed_object_layers", "forced_nested_list_with_later_sibling", "forced_unmentioned_regex_layer_without_match"):
         if acc.counters[c] < 50:
             why.append(f"{c}: only {acc.counters[c]}")
+    if acc.counters["layer_rule_objects_applied_to_two_architectures"] < 20:
+        why.append("too few layer rule objects applied to two different architectures")
     if acc.counters["c05_judged_nested_layer_lists"] < 200:
         why.append(f"only {acc.counters['c05_judged_nested_layer_lists']} evaluations with a module listed next to its ancestor inside one layer")
     if acc.counters["c05_judged"] < 5000:
